@@ -12,4 +12,5 @@ Extraction "writer_model.ml"
   C08_limits_holds rejected_sends_nothing_holds verdict_holds
   C01_nil_holds C01_we_holds C01_compl_holds C01_compl_total_holds C01_no_foreign_holds
   log_is_journal C01_dups_holds C01_holds C07_holds_for C07_holds rejected
-  Z.of_N.  (* Z.of_N only so that the shared ocaml/kvio.ml.in finds the type z *)
+  produce_error make_time_ms code_err reaction_of_code
+  Z.of_N.  (* Z.of_N also so that the shared ocaml/kvio.ml.in finds the type z *)
